@@ -101,8 +101,11 @@ fn main() {
         }
         "C11" => {
             parts.push(make_part("sched-conn", "SCHED", cli.cases(6_000, 200_000), convsched::c11_strategy, |_| (), |_, c| convsched::c11_oracle(c, &convsched::run_sched_conv(c))));
+            // through the whole server: pipelined requests reach application threads that each hold
+            // theirs until all of them have one (the read-ahead includes the hand-over to recv())
+            parts.push(make_part("sched-server", "SCHED", cli.cases(1_500, 60_000), || server::server_strategy(5, false), |_| (), |_, c| server::run_server_case("C11", c)));
             (
-                "part sched-conn: the real ClientConnection under the controlled scheduler: pipelines of 2-8 requests whose bodies are absent or <= 1024 bytes (1024 forced often), optionally one request with a larger or chunked body at a generated position; application programs: (a) collect every request up to and including the first streamed one before answering any, (b) read the streamed body to its end and - still holding that request unanswered - take its successor, (c) answer the streamed one, successors handled by another task; oracle: every collect succeeds while the client has received nothing (otherwise exact deadlock report), afterwards the whole pipeline is delivered and answered; non-trivial: >= 2 requests held unanswered at once",
+                "part sched-conn: the real ClientConnection under the controlled scheduler: pipelines of 2-8 requests whose bodies are absent or <= 1024 bytes (1024 forced often), optionally one request with a larger or chunked body at a generated position; application programs: (a) collect every request up to and including the first streamed one before answering any, (b) read the streamed body to its end and - still holding that request unanswered - take its successor, (c) answer the streamed one, successors handled by another task; oracle: every collect succeeds while the client has received nothing (otherwise exact deadlock report), afterwards the whole pipeline is delivered and answered; part sched-server: the whole Server (in-memory listener): connections with 1-2 pipelined requests, 1-2 application threads that in half of the cases hold their request until each of them has one; non-trivial: >= 2 requests held unanswered at once",
                 sched_assumptions,
             )
         }
